@@ -19,6 +19,7 @@
 import Abnf.Engine
 import Abnf.EngineC
 import Abnf.DriverExt
+import Abnf.Norm
 import Abnf.DriverCache
 import Abnf.Ref
 import Std.Data.HashMap
@@ -106,6 +107,11 @@ def handle (G : Grammar) (toks : List String) (st : HM) (x : Abnf.Ext.XState) : 
   | "parse" :: r :: i :: cps =>
     let (res, st) := lparseC hmOps G fuel (nats cps) (.ref r.toNat!) i.toNat! st
     (showPRes (pickWith id res), st, x)
+  -- `Rule.load_grammar(text)` (strict) / the rulelist decorator as far as the reader is concerned: normalise, then parse_all
+  | "parseallstrict" :: r :: cps =>
+    let s := Abnf.Norm.strictNorm (nats cps)
+    let (res, st) := lparseC hmOps G fuel s (.ref r.toNat!) 0 st
+    (showPRes (wholeOf s (pickWith id res)), st, x)
   | "parseall" :: r :: cps =>
     let s := nats cps
     let (res, st) := lparseC hmOps G fuel s (.ref r.toNat!) 0 st
